@@ -66,6 +66,12 @@ CLAIMS = {
                 'the unique*() functions clone when shared; hash-consed tuples are never mutated. A necessary condition of copy isolation; independence from process history in general is not decided.',
         'note': 'trusted: clang 14 AST, exporter; provenance analysis is intra-procedural (parameters/members/elements are Shared, unresolved is unknown and only costs the floor)',
     },
+    'C12': {
+        'text': 'Decides structural necessary conditions of the rule container: tuples are stored only hash-consed (membership is pointer equality), the nested iterators re-seat every inner level whenever an outer level moves '
+                '(hierarchy discovered from the begin() assignments), Clear() resets rules and final states on every path, and no lookup or accessor writes the shared stores (COW: e.g. operator[] in a query). '
+                '"Exactly once and nothing else" for every history is not decided.',
+        'note': 'trusted: clang 14 AST/CFG, exporter',
+    },
     'C14': {
         'text': 'Decides that renaming writes exactly translated values into the destination: in ReindexStates (tree, NFA, both BDD cores) and CollapseStates every state handed to the destination '
                 '(final/start states, rule parents, children, successors) is the state index applied once to a stored state; the destination is written only through unique*() handles (COW). '
